@@ -152,7 +152,8 @@ async fn c11_leader_panic_in_result_clone_frees_the_key_fixed() {
     assert_eq!(calls.load(Ordering::SeqCst), 2);
 }
 
-/// C20: retries and reconnect retries call an instance that has not been polled ready since its previous call.
+/// C20 (FIXED): retries and reconnect retries used to call an instance that had not been polled ready since its previous call;
+/// hedge called fresh clones. The tests assert the repaired behaviour with a service that checks per-instance readiness.
 #[derive(Debug, Clone)]
 struct Refused;
 impl std::fmt::Display for Refused { fn fmt(&self, f: &mut std::fmt::Formatter<'_>) -> std::fmt::Result { write!(f, "connection refused") } }
@@ -170,7 +171,7 @@ impl Service<String> for StrictReadiness {
     }
 }
 #[tokio::test]
-async fn c20_retry_second_attempt_not_ready() {
+async fn c20_retry_every_attempt_on_a_ready_instance_fixed() {
     use tower_resilience_retry::RetryLayer;
     let v = Arc::new(AtomicUsize::new(0));
     let inner = StrictReadiness { ready: false, violations: Arc::clone(&v), fails_left: Arc::new(AtomicUsize::new(1)) };
@@ -178,10 +179,12 @@ async fn c20_retry_second_attempt_not_ready() {
     let mut svc = layer.layer(inner);
     let out = svc.ready().await.unwrap().call("x".to_string()).await;
     assert!(out.is_ok());
-    assert!(v.load(Ordering::SeqCst) >= 1, "finding no longer reproduces: every attempt went to an instance observed ready");
+    // FIXED by "fix: retry drives the service to readiness again before each further attempt": before the fix the second attempt
+    // was made without a fresh poll_ready (violations >= 1).
+    assert_eq!(v.load(Ordering::SeqCst), 0, "the C20 defect is back: an attempt went to an instance not observed ready");
 }
 #[tokio::test]
-async fn c20_reconnect_retry_not_ready() {
+async fn c20_reconnect_retry_on_a_ready_instance_fixed() {
     use tower_resilience_reconnect::{ReconnectConfig, ReconnectLayer, ReconnectPolicy};
     let v = Arc::new(AtomicUsize::new(0));
     let inner = StrictReadiness { ready: false, violations: Arc::clone(&v), fails_left: Arc::new(AtomicUsize::new(1)) };
@@ -189,7 +192,8 @@ async fn c20_reconnect_retry_not_ready() {
     let mut svc = ReconnectLayer::new(config).layer(inner);
     let out = svc.ready().await.unwrap().call("x".to_string()).await;
     assert!(out.is_ok());
-    assert!(v.load(Ordering::SeqCst) >= 1, "finding no longer reproduces: the retry went to an instance observed ready");
+    // FIXED by "fix: reconnect polls the service ready before retrying a request" (before: violations >= 1).
+    assert_eq!(v.load(Ordering::SeqCst), 0, "the C20 defect is back: the retry went to an instance not observed ready");
 }
 
 /// C12 (FIXED in /repo by "fix: hedge reports all-attempts-failed only when every started attempt has failed"): before the fix
@@ -216,4 +220,17 @@ async fn c12_all_failed_only_after_every_attempt_failed_fixed() {
     let out = h.ready().await.unwrap().call(()).await;
     // property: fails only when every started attempt has failed -> Ok("primary") at 200 ms. Before the fix: AllAttemptsFailed at ~70 ms.
     assert_eq!(out.ok(), Some("primary"), "the C12 defect is back");
+}
+
+/// C20 (FIXED by "fix: hedge calls the ready instance for the primary and drives clones to readiness for hedges")
+#[tokio::test]
+async fn c20_hedge_every_attempt_on_a_ready_instance_fixed() {
+    use tower_resilience_hedge::HedgeLayer;
+    let v = Arc::new(AtomicUsize::new(0));
+    // both attempts fail, so both the primary and the hedge are started
+    let inner = StrictReadiness { ready: false, violations: Arc::clone(&v), fails_left: Arc::new(AtomicUsize::new(2)) };
+    let layer = HedgeLayer::builder().max_hedged_attempts(2).no_delay().build();
+    let mut svc = layer.layer(inner);
+    let _ = svc.ready().await.unwrap().call("x".to_string()).await;
+    assert_eq!(v.load(Ordering::SeqCst), 0, "the C20 defect is back: a hedged attempt went to an instance not observed ready");
 }
